@@ -55,6 +55,13 @@ type Table struct {
 
 // tableTypes returns key and element type when t is a type the table model represents.
 func tableTypes(t types.Type) (key, elem types.Type, arr, ok bool) {
+	// a pointer to an array is indexed, measured and ranged over like the array (a method of an array type
+	// with a pointer receiver, called on the package-level table)
+	if p, isPtr := t.Underlying().(*types.Pointer); isPtr {
+		if a, isArr := p.Elem().Underlying().(*types.Array); isArr {
+			return types.Typ[types.Int], a.Elem(), true, true
+		}
+	}
 	switch u := t.Underlying().(type) {
 	case *types.Map:
 		return u.Key(), u.Elem(), false, true
